@@ -31,10 +31,18 @@ def depth_bound(tier):
 
 
 # ---------------------------------------------------------------------------------- real code
+_PARSED = {}
+
+
 def parse_source(src):
+    """a fresh copy of the PSyIR of the source (parsed once)"""
     from psyclone.psyir.frontend.fortran import FortranReader
     from psyclone.psyir.nodes import Routine
-    psyir = FortranReader().psyir_from_source(src)
+    if src not in _PARSED:
+        if len(_PARSED) > 8:
+            _PARSED.clear()
+        _PARSED[src] = FortranReader().psyir_from_source(src)
+    psyir = _PARSED[src].copy()
     return psyir, psyir.walk(Routine)[0]
 
 
@@ -61,18 +69,32 @@ def real_apply(routine, step):
     return "ok", ""
 
 
-def lowered(psyir, routine_name):
+def lowered(psyir, routine_name, want_text):
     """lowers a copy of the tree; returns (routine of the lowered copy, Fortran text or None)"""
     from psyclone.psyir.nodes import Routine
     from psyclone.psyir.backend.fortran import FortranWriter
     cp = psyir.copy()
     text = None
-    try:
-        text = FortranWriter()(cp)     # the writer lowers a copy of its own
-    except Exception:  # pylint: disable=broad-except
-        text = None
+    if want_text:
+        try:
+            text = FortranWriter()(cp)     # the writer lowers a copy of its own
+        except Exception:  # pylint: disable=broad-except
+            text = None
     cp.lower_to_language_level()
     return [r for r in cp.walk(Routine) if r.name == routine_name][0], text
+
+
+def fortran_of(case):
+    """the instrumented Fortran of a case (re-runs the history)"""
+    from psyclone.psyir.backend.fortran import FortranWriter
+    psyir, routine = parse_source(case.src)
+    for st in case.steps:
+        if real_apply(routine, st)[0] != "ok":
+            return None
+    try:
+        return FortranWriter()(psyir)
+    except Exception:  # pylint: disable=broad-except
+        return None
 
 
 def new_region(routine, before_ids):
@@ -132,7 +154,7 @@ def prepare(case, ids_by_case, tier):
     if case.real["verdict"] == "ok":
         case.real["after"] = sx(G.abs_sched(routine, ids))
         names = []
-        low, text = lowered(psyir, routine.name)
+        low, text = lowered(psyir, routine.name, tier == "thorough")
         case.real["lowered"] = sx(G.abs_sched(low, ids, names))
         case.real["names"] = names
         case.real["fortran"] = text
@@ -183,13 +205,17 @@ def judge(chk, case, out, ids, gf, stats):
         ex = parse_sx(out["explore"])
         stats["oracle_runs"] = stats.get("oracle_runs", 0) + (ex[1] if ex[0] == "ok" else 0)
         if ex[0] == "bad":
+            stats["failing_inputs"] = stats.get("failing_inputs", 0) + 1
+            detailed = stats["failing_inputs"] <= 5
+            if detailed:
+                real["fortran"] = real["fortran"] or fortran_of(case)
             viol = dict(case.payload(), kind="failing-input",
                         observed={"oracle": ex[1], "trace": sx(ex[2]), "outcome": sx(ex[3]),
                                   "lowered": real["lowered"]},
                         expected="every execution calls PreStart/PostEnd in properly nested, matched pairs "
                                  "(or validate refuses the region)",
                         fortran=real["fortran"])
-            if gf is not None and real["fortran"]:
+            if gf is not None and real["fortran"] and detailed:
                 viol["gfortran"] = list(gf.run(real["fortran"]))
         else:
             auto = [tuple(n) for n, rn in zip(real["names"], parse_sx(out["lower"])[1] if agreed else [])
@@ -230,11 +256,15 @@ def cases_of_program(chk, src, origin, budget2):
     _, routine = parse_source(src)
     first = []
     for path, i, j in placements(routine):
-        for t in G.TRANS:
+        for t in (G.TRANS if chk.tier == "thorough" else ["ProfileTrans", rng.choice(G.TRANS[1:])]):
             name = None
             if rng.random() < 0.08:
                 name = rng.choice([["mymod", "myreg"], ["mymod", "other"], ["work", "r0"]])
             first.append([t, path, i, j, name])
+    cap = 400 if chk.tier == "thorough" else 130
+    if len(first) > cap:
+        rng.shuffle(first)
+        del first[cap:]
     out = [Case(src, [st], origin) for st in first]
     # level 2
     tried = 0
@@ -278,7 +308,7 @@ def names_check(chk, stats):
                      ("single_invoke.f90", 1)):
             try:
                 for k in range(n):
-                    invokes.append(get_invoke(f, "gocean1.0", idx=k, dist_mem=False)[1])
+                    invokes.append(get_invoke(f, "gocean", idx=k, dist_mem=False)[1])
             except Exception:  # pylint: disable=broad-except
                 continue
         if not invokes:
@@ -320,7 +350,76 @@ def names_check(chk, stats):
                 chk.correspondence_broken("get_unique_region_name differs from C28.uniqueNames", reqs, exp, got)
     finally:
         PSyDataTrans._used_kernel_names = saved
-        Config.get().api = old_api
+        Config.get()._api = old_api
+    return None
+
+
+# ---------------------------------------------------------------------------------- several routines
+def multi_names(src, tname):
+    """instruments the whole body of every routine of a file; returns [(routine name, model names, real names)]
+    with the model names still to be filled in, and the driver lines"""
+    from psyclone.psyir.frontend.fortran import FortranReader
+    from psyclone.psyir.nodes import Routine
+    psyir = FortranReader().psyir_from_source(src)
+    ids = G.Ids()
+    per, lines = [], []
+    for r in psyir.walk(Routine):
+        real_apply(r, [tname, [], 0, len(r.children), None])
+    low = psyir.copy()
+    low.lower_to_language_level()
+    for r, rl in zip(psyir.walk(Routine), low.walk(Routine)):
+        names = []
+        G.abs_sched(rl, ids, names)
+        per.append((r.name, [tuple(n) for n in names]))
+        lines.append(sx(["lower", ids.name(r.name), G.abs_sched(r, ids)]))
+    return per, lines, ids
+
+
+def duplicate_classes(per):
+    """(known-class duplicates, other duplicates) among the generated names of a file"""
+    seen, known, other = {}, [], []
+    for ri, (rname, names) in enumerate(per):
+        for n in names:
+            if n in seen:
+                rj = seen[n]
+                (known if rj != ri and per[rj][0] == rname else other).append(n)
+            else:
+                seen[n] = ri
+    return known, other
+
+
+def gen_multi(rng):
+    mods = []
+    for m in range(rng.randint(2, 3)):
+        subs = []
+        for name in rng.sample(["work", "init", "step"], rng.randint(1, 2)):
+            body = ["  a = a + 1.0"] + (["  do i = 1, 3", "    a = a * 0.5", "  end do"] if rng.random() < 0.5 else [])
+            subs.append("\n".join([f"subroutine {name}(a)", "  real :: a", "  integer :: i"] + body +
+                                  [f"end subroutine {name}"]))
+        mods.append(f"module m{m}\ncontains\n" + "\n".join(subs) + f"\nend module m{m}\n")
+    return "".join(mods)
+
+
+def multi_check(chk, stats):
+    """files with several modules whose routines may share names: names vs model, and the
+    uniqueness clause evaluated directly (duplicates between same-named routines = known finding)"""
+    for _ in range(6 if chk.tier == "quick" else 40):
+        src = gen_multi(chk.rng)
+        tname = chk.rng.choice(["ProfileTrans", "NanTestTrans"])
+        per, lines, ids = multi_names(src, tname)
+        outs = driver("C28", lines)
+        agreed = all([name_of(rn, ids) for rn in parse_sx(o)[1]] == names for o, (_, names) in zip(outs, per))
+        chk.case({"multi_source": src, "trans": tname, "names": per}, nontrivial=True, agreed=agreed)
+        known, other = duplicate_classes(per)
+        stats["multi_routine_files"] = stats.get("multi_routine_files", 0) + 1
+        if known:
+            stats["known_class_same_routine_name"] = stats.get("known_class_same_routine_name", 0) + 1
+        if other:
+            return {"kind": "failing-input", "multi_source": src, "trans": tname, "observed": per,
+                    "expected": "generated region names pairwise distinct (outside the known same-routine-name class)"}
+        if not agreed:
+            chk.correspondence_broken("region names of a multi-routine file differ from C28.loweredNames",
+                                      {"multi_source": src, "trans": tname}, outs, per)
     return None
 
 
@@ -366,14 +465,14 @@ def run(chk):
 
 
 def _run(chk, stats, gf):
-    nprog = 60 if chk.tier == "thorough" else 14
+    nprog = 60 if chk.tier == "thorough" else 9
     cases = list(corpus_cases())
     feats = {}
     for p in range(nprog):
         src, features = G.gen_program(chk.rng)
         for f in features:
             feats[f] = feats.get(f, 0) + 1
-        cases += cases_of_program(chk, src, f"gen-{chk.seed}-{p}", 25 if chk.tier == "thorough" else 12)
+        cases += cases_of_program(chk, src, f"gen-{chk.seed}-{p}", 25 if chk.tier == "thorough" else 8)
     stats["programs"] = nprog
     stats["program_features"] = feats
     ids_by_case, batch, index = {}, [], []
@@ -400,7 +499,9 @@ def _run(chk, stats, gf):
                 chk.violation(viol)
     if confirm:
         confirm.close()
-    stats["failing_inputs"] = nviol
+    v = multi_check(chk, stats)
+    if v is not None:
+        chk.violation(v)
     v = names_check(chk, stats)
     if v is not None:
         chk.violation(v)
@@ -413,6 +514,13 @@ def _run(chk, stats, gf):
 def replay_witness(payload, quiet=False):
     """re-runs a stored input against the real code; True iff the property fails on it"""
     say = (lambda *a: None) if quiet else print
+    if "multi_source" in payload:
+        per, _, _ = multi_names(payload["multi_source"], payload.get("trans", "ProfileTrans"))
+        known, other = duplicate_classes(per)
+        say("source:\n" + payload["multi_source"])
+        say("observed region names per routine:", per)
+        say("expected: pairwise distinct generated names; duplicates:", known + other)
+        return bool(known or other)
     if "names_requests" in payload:
         say("names-table witness: re-run `./check C28` (sequence-dependent)")
         return False
